@@ -514,5 +514,30 @@ Theorem C17_wiring_Strand_population_proportion_stderrs :
 Proof. exact Proofs.GenAgreeWiring_C17.gen_wiring_Strand_population_proportion_stderrs. Qed.
 Print Assumptions C17_wiring_Strand_population_proportion_stderrs.
 
+Theorem C17_wiring_SecondOrderMeasures_population_proportions :
+  wsrc_SecondOrderMeasures_population_proportions = Some (WCall (WGlobal "_PopulationProportions")
+      [WSelf "_dimensions"; WVar "self"; WSelf "_cube_measures"] []).
+Proof. exact Proofs.GenAgreeWiring_C17.gen_wiring_SecondOrderMeasures_population_proportions. Qed.
+Print Assumptions C17_wiring_SecondOrderMeasures_population_proportions.
+
+Theorem C17_wiring_SecondOrderMeasures_population_std_err :
+  wsrc_SecondOrderMeasures_population_std_err = Some (WCall (WGlobal "_PopulationStandardError")
+      [WSelf "_dimensions"; WVar "self"; WSelf "_cube_measures"] []).
+Proof. exact Proofs.GenAgreeWiring_C17.gen_wiring_SecondOrderMeasures_population_std_err. Qed.
+Print Assumptions C17_wiring_SecondOrderMeasures_population_std_err.
+
+Theorem C17_wiring_StripeMeasures_population_proportions :
+  wsrc_StripeMeasures_population_proportions = Some (WCall (WGlobal "_PopulationProportions") [WSelf
+      "_rows_dimension"; WVar "self"; WSelf "_cube_measures"] []).
+Proof. exact Proofs.GenAgreeWiring_C17.gen_wiring_StripeMeasures_population_proportions. Qed.
+Print Assumptions C17_wiring_StripeMeasures_population_proportions.
+
+Theorem C17_wiring_StripeMeasures_population_proportion_stderrs :
+  wsrc_StripeMeasures_population_proportion_stderrs = Some (WCall (WGlobal
+      "_PopulationProportionStderrs") [WSelf "_rows_dimension"; WVar "self"; WSelf "_cube_measures"]
+      []).
+Proof. exact Proofs.GenAgreeWiring_C17.gen_wiring_StripeMeasures_population_proportion_stderrs. Qed.
+Print Assumptions C17_wiring_StripeMeasures_population_proportion_stderrs.
+
 End Wiring_C17.
 (* ---- WIRING-APPENDIX:END ---- *)
